@@ -141,6 +141,11 @@ fn valid_frame(addr: u32, base: (f64, f64)) -> BoxedStrategy<Frame> {
         2 => (1u32..=4, 0u32..8, 0u32..8, gen::chars8_pool()).prop_map(move |(tc, cat, ca, ch)| bits::es(17, ca, addr, bits::me_ident(tc, cat, ch))),
         6 => (9u32..=18, 0u32..4, gen::ac12_valid(), any::<bool>(), -0.02f64..0.02, -0.02f64..0.02, 0u32..8).prop_map(move |(tc, ss, ac, odd, dx, dy, ca)| bits::es(17, ca, addr, airpos_me(tc, ss, ac, odd, base.0 + dx, base.1 + dy))),
         4 => (gen::vel_valid(), 0u32..8).prop_map(move |(v, ca)| bits::es(17, ca, addr, bits::me_velocity(&v))),
+        // surface position (movement, valid ground track, non-zero CPR fields): blanks the altitude on both paths
+        2 => (5u32..=8, 1u32..125, 0u32..128, any::<bool>(), -0.02f64..0.02, -0.02f64..0.02, 0u32..8).prop_map(move |(tc, mov, trk, odd, dx, dy, ca)| {
+            let (yz, xz, _, _) = crate::refdec::cpr_encode(base.0 + dx, base.1 + dy, odd);
+            bits::es(17, ca, addr, bits::me_surfpos(tc, mov, 1, trk, 0, odd as u32, yz.max(1), xz.max(1)))
+        }),
         1 => (prop_oneof![Just(28u32), Just(29u32), Just(31u32)], gen::fill64(), 0u32..8).prop_map(move |(tc, fill, ca)| bits::es(17, ca, addr, bits::me_raw(tc, fill))),
     ]
     .boxed()
